@@ -13,10 +13,15 @@ def vcs(B):
     B.function('SR__dRTdAngles', P, 'dRTdAngles')
     B.extract()
     ax, ay, az = B.real('roll'), B.real('pitch'), B.real('yaw')
-    rot = B.sx.default_value(('struct', 'SmartRotation3D'))
-    B.call('SR__ctor0', rot)
+    # the default constructor establishes the representation invariant, init() is specified from ANY state satisfying it (so that
+    # re-initialising a used object is covered) and re-establishes it
+    fresh = B.sx.default_value(('struct', 'SmartRotation3D'))
+    B.call('SR__ctor0', fresh)
+    symalg.smart_rotation_invariant_vcs(B, fresh, 'SmartRotation3D.default_constructor', ['SR__ctor0'])
+    rot = symalg.smart_rotation_prior_state(B)
     B.call('SR__init3', rot, ax, ay, az)
     B.take_obligations()
+    symalg.smart_rotation_invariant_vcs(B, rot, 'SmartRotation3D.init', ['SR__init3'])
     env = {'sx': app('f_sin', ax), 'cx': app('f_cos', ax), 'sy': app('f_sin', ay), 'cy': app('f_cos', ay), 'sz': app('f_sin', az), 'cz': app('f_cos', az)}
     for a in (ax, ay, az):
         B.libm('sin', [a], 'true'); B.libm('cos', [a], 'true')
